@@ -163,6 +163,34 @@ class _Expand(ast.NodeTransformer):
     def visit_Lambda(self, node):
         return node
 
+    def _comp(self, node):
+        # the body of a comprehension / generator runs once per element (or never): its calls are not events of this path; only
+        # the names bound outside are substituted (the comprehension's own variables shadow them)
+        own = {x.id for g in node.generators for x in ast.walk(g.target) if isinstance(x, ast.Name)}
+        path = self.path
+
+        class Q(ast.NodeTransformer):
+            def visit_Name(self_, n):
+                if isinstance(n.ctx, ast.Load) and n.id in path.env and n.id not in own:
+                    return copy.deepcopy(path.env[n.id])
+                return n
+
+            def visit_Lambda(self_, n):
+                return n
+        return Q().visit(node)
+
+    def visit_ListComp(self, node):
+        return self._comp(node)
+
+    def visit_SetComp(self, node):
+        return self._comp(node)
+
+    def visit_DictComp(self, node):
+        return self._comp(node)
+
+    def visit_GeneratorExp(self, node):
+        return self._comp(node)
+
     def visit_Call(self, node):
         self.generic_visit(node)
         if self.sp.is_pure_call(node):
@@ -536,7 +564,10 @@ class SymPaths:
 
     def assign(self, target, value, path):
         if isinstance(target, ast.Name):
-            if isinstance(value, (ast.List, ast.Dict, ast.Set, ast.ListComp, ast.DictComp, ast.SetComp)):
+            fresh_copy = (isinstance(value, ast.Subscript) and isinstance(value.slice, ast.Slice)) \
+                or (isinstance(value, ast.Call) and isinstance(value.func, ast.Name) and value.func.id in ('list', 'dict', 'set', 'sorted') and value.args) \
+                or (isinstance(value, ast.Call) and isinstance(value.func, ast.Attribute) and value.func.attr == 'copy' and not value.args)
+            if isinstance(value, (ast.List, ast.Dict, ast.Set, ast.ListComp, ast.DictComp, ast.SetComp)) or (fresh_copy and self.named_constants):
                 # a fresh mutable object: bound to an object symbol (its contents may change through later calls, so its
                 # truthiness / length are never folded); the display it was created from is kept for resolve()
                 k = sum(1 for e in path.events if e[0] == '@new') + 1 + self.nobj0
@@ -863,7 +894,7 @@ def summaries(project, func, inline=True, pure=(), select=None, unroll=False, na
     return paths
 
 
-def block_summaries(project, func, stmts, pure=(), env=None, ncall0=0, named_constants=False):
+def block_summaries(project, func, stmts, pure=(), env=None, ncall0=0, named_constants=False, assume=()):
     """paths through a statement list (e.g. one iteration of a loop body); `exit` tells how each path leaves it"""
     node = ast.FunctionDef(name='_block', args=None, body=list(stmts), decorator_list=[])
     sp = SymPaths(project, func, node, pure=pure)
@@ -873,6 +904,7 @@ def block_summaries(project, func, stmts, pure=(), env=None, ncall0=0, named_con
     sp.pure_project = named_constants
     done = []
     first = Path(env=dict(env or {}))
+    first.conds = tuple(assume)          # what holds on entry by construction (e.g. an enumerate() index is below the length)
     for q in sp.block(node.body, [first], done):
         done.append(q)
     for q in done:
